@@ -15,10 +15,11 @@ RULE_TEXT = "obligation = (rule, shape, type); evaluations = abstract paths; non
 
 
 def run(ctx) -> None:
-    ctx.rules_run += ["J1", "J2", "J3", "Q4", "J4", "J5"]
+    ctx.rules_run += ["J1", "J2", "J3", "Q4", "J4", "J5", "J6"]
     rule_Q4(ctx)
     jsonrules.rule_J4(ctx)
     jsonrules.rule_J5(ctx)     # Duration text: emitter and parser agree on the sign of the fraction
     jsonrules.rule_J1(ctx)
     jsonrules.rule_J2(ctx)
+    jsonrules.rule_J6(ctx)
     presence.rule_D4(ctx, "J3")
